@@ -363,3 +363,303 @@ def validate(traces, timeout=1800):
     if len(acc) + len(rej) != len(traces):
         raise tlc.MachineryError(f"PipelineTrace: {len(acc)} accepted + {len(rej)} rejected != {len(traces)} traces")
     return rej, res
+
+
+# ---------------------------------------------------------------------------------------
+# (a) exhaustive model, (b) replay of its edges
+
+MC_CFG = ("SPECIFICATION Spec\nVIEW View\nINVARIANT Inv\nINVARIANT DrainOK\nPROPERTY ClearProp\n"
+          "ACTION_CONSTRAINT Emit\nCHECK_DEADLOCK FALSE\n")
+
+
+def model_check(rep):
+    res = tlc.run("PipelineMC", MC_CFG, workers=1, timeout=1500)
+    if res.invariant_violated:
+        rep.violation({"component": "PipelineBuilder", "what": f"model violates {res.invariant_violated}",
+                       "clauses": ["MC:" + res.invariant_violated], "tlc_tail": res.out.splitlines()[-60:]})
+        return res, [], []
+    tlc.require_ok(res, "PipelineMC")
+    rep.add("states", res.distinct)
+    rep.add("transitions", res.generated)
+    edges, inits = tlc.tagged(res, "EDGE"), tlc.tagged(res, "INIT")
+    rep.coverage.setdefault("mc", []).append(
+        {"module": "PipelineMC", "distinct_states": res.distinct, "states_generated": res.generated,
+         "depth": res.depth, "edges": len(edges), "wall_s": round(res.wall_s, 2),
+         "invariants": ["Inv (capacity, NoLoss/no duplication, EachStageOnceInOrder, ExitOrder, FieldsComputed, "
+                        "ClearDropsInflight)", "DrainOK (NoLoss, bounded drain)", "ClearProp"]})
+    return res, edges, inits
+
+
+def _proj_state(st):
+    """what the implementation state depends on: buffer contents (fields only), counters"""
+    return {"conn": [[it["f"] for it in (c or [])] for c in st["conn"]], "np": [list(x or []) for x in st["np"]],
+            "entered": st["entered"], "ctr": st["ctr"]}
+
+
+def project_edges(edges, inits):
+    seen, out = set(), []
+    for e in edges:
+        pe = {"cfg": e["cfg"], "from": _proj_state(e["from"]), "to": _proj_state(e["to"]), "lab": e["lab"]}
+        k = vcomp._key([pe["cfg"]["name"], pe["from"], pe["lab"]])
+        if k not in seen:
+            seen.add(k)
+            out.append(pe)
+    pin = [{"cfg": i["cfg"], "st": _proj_state(i["st"])} for i in inits]
+    return out, pin
+
+
+def _steps_of_walk(shape, walk):
+    steps = []
+    for e in walk:
+        lab = e["lab"]
+        args = {}
+        for j, nd in enumerate(shape["nodes"]):
+            if nd["kind"] == "ext" and nd["gen"]:
+                a = lab["args"][j] if lab["args"] else []
+                args[j] = dict(zip(nd["gen"], a)) if a else {f: 0 for f in nd["gen"]}
+        steps.append({"trig": [t - 1 for t in lab["trig"]], "args": args, "clear": bool(lab["clear"])})
+    return steps
+
+
+def replay_walk(shape, walk):
+    """-> (kind, step index, text, steps) with kind in {None, "timing", "data"}"""
+    steps = _steps_of_walk(shape, walk)
+    lines = run_schedule(shape, steps)
+    for i, (e, ln) in enumerate(zip(walk, lines)):
+        lab = e["lab"]
+        fires = {j for j, x in enumerate(ln["n"]) if x["f"]}
+        sup = {j for j, x in enumerate(ln["n"]) if x["s"]}
+        if fires != {t - 1 for t in lab["fires"]} or sup != {t - 1 for t in lab["sup"]}:
+            return ("timing", i, f"fired {sorted(fires)} supplied {sorted(sup)}; model: fires "
+                    f"{[t - 1 for t in lab['fires']]} supplies {[t - 1 for t in lab['sup']]}", steps)
+        if ln["clear"] != int(bool(lab["clear"])):
+            return "timing", i, f"clear executed={ln['clear']} requested={lab['clear']}", steps
+        for j in sorted(fires | sup):
+            er, eg = list(lab["r"][j] or []), list(lab["g"][j] or [])
+            if ln["n"][j]["r"] != er or ln["n"][j]["g"] != eg:
+                return ("data", i, f"node {j} saw r={ln['n'][j]['r']} g={ln['n'][j]['g']}; model r={er} g={eg}", steps)
+    return None, None, None, steps
+
+
+def _replay_task(args):
+    shape, walk = args
+    try:
+        return shape, replay_walk(shape, walk), None
+    except Exception:
+        return shape, None, traceback.format_exc()[-1500:]
+
+
+def replay_edges(rep, edges, inits, max_walks_per_shape):
+    pedges, pinits = project_edges(edges, inits)
+    init_by = {vcomp._key(i["cfg"]): vcomp._key(i["st"]) for i in pinits}
+    for e in pedges:
+        e["_init"] = init_by.get(vcomp._key(e["cfg"]))
+    walks = vcomp.plan_walks(pedges, max_len=60, tail=0, rng=random.Random(rep.seed))
+    by = defaultdict(list)
+    for cw in walks:
+        by[cw[0]["name"]].append(cw)
+    chosen = []
+    for k in sorted(by):
+        ws = sorted(by[k], key=lambda cw: -len(cw[1]))
+        chosen += ws if max_walks_per_shape is None else ws[:max_walks_per_shape]
+    with mp.Pool(min(mh.nprocs(), max(1, len(chosen)))) as pool:
+        out = pool.map(_replay_task, chosen, chunksize=4)
+    rep.add("edges_total", len(pedges))
+    rep.add("edges_replayed_into_impl", len({id(e) for _, w in chosen for e in w}))
+    rep.add("replay_walks", len(chosen))
+    rep.add("replay_cycles", sum(len(w) for _, w in chosen))
+    dev = defaultdict(list)
+    bad = defaultdict(list)
+    for (shape, res, err), (_, walk) in zip(out, chosen):
+        if err:
+            bad[(shape["name"], "ReplayException")].append((shape, err, [], 0))
+            continue
+        kind, i, text, steps = res
+        if kind == "timing":
+            dev[shape["name"]].append((text, steps[: i + 1]))
+        elif kind == "data":
+            bad[(shape["name"], "FieldsComputed")].append((shape, text, steps, i))
+    for (name, clause), items in sorted(bad.items()):
+        shape, text, steps, i = items[0]
+        rep.violation({"component": "PipelineBuilder", "cfg": shape, "clauses": [clause, "EdgeReplay"],
+                       "what": f"{text} ({len(items)} walk(s) of shape {name})", "steps": steps[: i + 1]})
+    # timing conformance with the exact bounded-buffer model is stronger than the property: diagnostic only
+    rep.coverage["model_deviations"] = sum(len(v) for v in dev.values())
+    for name, items in sorted(dev.items()):
+        print(f"MODEL-DEVIATION property=C28 shape={name} walks={len(items)}: {items[0][0]}", flush=True)
+        rep.coverage.setdefault("model_deviation_samples", []).append({"shape": name, "what": items[0][0],
+                                                                       "steps": items[0][1]})
+
+
+# ---------------------------------------------------------------------------------------
+# (c) traces of generated shapes
+
+def shape_sig(shape):
+    return " ".join(nd["kind"][0] + ("*" if nd["nodep"] else "") + (f"<{nd['depth']}" if nd["conn"] == "fifo" else "")
+                    for nd in shape["nodes"])
+
+
+def shape_class(shape):
+    return ("nodep " if any(nd["nodep"] for nd in shape["nodes"]) else "") + \
+           ("fifo " if any(nd["conn"] == "fifo" for nd in shape["nodes"]) else "") + \
+           ("allow_unused " if shape["allow_unused"] else "") + ("allow_empty" if shape["allow_empty"] else "")
+
+
+def record(rep, shapes, cycles, tag):
+    tasks = [(sh, rep.seed * 7919 + i, cycles) for i, sh in enumerate(shapes)]
+    with mp.Pool(min(mh.nprocs(), max(1, len(tasks)))) as pool:
+        out = pool.map(_record_task, tasks, chunksize=max(1, len(tasks) // (mh.nprocs() * 4)))
+    traces, rejected = [], []
+    for tr, err in out:
+        if err is None:
+            traces.append(tr)
+        elif err[0] in ("ValueError", "TypeError", "RuntimeError"):
+            rejected.append((tr["cfg"], err[1].strip().splitlines()[-1][:200]))   # shape not accepted by the builder
+        else:
+            rep.violation({"component": "PipelineBuilder", "cfg": tr["cfg"], "clauses": ["BuildOrRunException"],
+                           "what": err[1], "seed": tr["seed"]})
+    rep.add(f"shapes_{tag}_built", len(traces))
+    rep.add(f"shapes_{tag}_not_accepted", len(rejected))
+    return traces, rejected
+
+
+def judge(rep, traces):
+    rej, res = validate(traces)
+    rep.add("traces_validated_against_impl", len(traces))
+    rep.add("trace_states", res.distinct)
+    groups = defaultdict(list)
+    for r in rej:
+        tr = traces[r["tid"] - 1]
+        groups[(tuple(sorted(r["clauses"])), shape_class(tr["cfg"]))].append((r, tr))
+    for (clauses, cls), items in sorted(groups.items(), key=lambda kv: str(kv[0])):
+        r, tr = min(items, key=lambda it: (len(it[1]["cfg"]["nodes"]), it[0]["line"]))
+        ln = r["line"]
+        rep.violation({"component": "PipelineBuilder", "cfg": tr["cfg"], "clauses": list(clauses), "line": ln,
+                       "seed": tr["seed"], "shape": shape_sig(tr["cfg"]), "model_state": r["state"],
+                       "observed": tr["cycles"][ln - 1],
+                       "what": f"shape class [{cls.strip()}]: {len(items)} trace(s) rejected, e.g. shape {shape_sig(tr['cfg'])}",
+                       "steps": tr["steps"][:ln]})
+    return rej
+
+
+def corrupt_self_test(rep, traces, rng, n=8):
+    """Binding: (a) change one observed required-field value of a firing node -> rejected at that line;
+    (b) hide one firing of the last node -> rejected at that line or later (order / NoLoss)."""
+    import copy
+    picked = []
+    good = [t for t in traces if len(t["cycles"]) > 10]
+    for k in range(n * 30):
+        if len(picked) >= n or not good:
+            break
+        t = copy.deepcopy(rng.choice(good))
+        li = rng.randrange(len(t["cycles"]))
+        nodes = t["cfg"]["nodes"]
+        ln = t["cycles"][li]
+        if k % 2 == 0:
+            c = [j for j, x in enumerate(ln["n"]) if x["f"] and x["r"]]
+            if not c:
+                continue
+            j = rng.choice(c)
+            ln["n"][j]["r"][rng.randrange(len(ln["n"][j]["r"]))] ^= 1
+            picked.append((t, li + 1, "r"))
+        else:
+            j = len(nodes) - 1
+            if not ln["n"][j]["f"]:
+                continue
+            ln["n"][j]["f"] = 0
+            picked.append((t, li + 1, "f"))
+    if not picked:
+        return
+    rej, _ = validate([p[0] for p in picked])
+    rejected = {r["tid"]: r for r in rej}
+    ok_r = sum(1 for i, p in enumerate(picked) if p[2] == "r" and (i + 1) in rejected and rejected[i + 1]["line"] == p[1])
+    ok_f = sum(1 for i, p in enumerate(picked) if p[2] == "f" and (i + 1) in rejected and rejected[i + 1]["line"] >= p[1])
+    n_r = sum(1 for p in picked if p[2] == "r")
+    rep.coverage["selftest_corrupted_traces"] = len(picked)
+    rep.coverage["selftest_corrupted_rejected"] = ok_r + ok_f
+    rep.coverage["selftest_detail"] = {"value_flipped": n_r, "rejected_at_line": ok_r,
+                                       "exit_hidden": len(picked) - n_r, "rejected": ok_f}
+    if ok_r != n_r or ok_f != len(picked) - n_r:
+        rep.machinery(f"PipelineTrace: corrupt-a-field self-test failed: {rep.coverage['selftest_detail']}")
+
+
+def situations(traces):
+    seen = set()
+    for tr in traces:
+        sig = shape_sig(tr["cfg"]) + "|" + vcomp._key([nd["req"] + ["/"] + nd["gen"] for nd in tr["cfg"]["nodes"]])
+        entered = left = 0
+        for ln in tr["cycles"]:
+            k = sum(1 for x in ln["n"] if x["f"] or x["s"])
+            if k >= 2:
+                seen.add((sig, "simultaneous", k))
+            entered += ln["n"][0]["f"] or ln["n"][0]["s"]
+            left += ln["n"][-1]["f"]
+            if ln["clear"]:
+                seen.add((sig, "clear-with-inflight", min(entered - left, 4)))
+                entered = left = 0
+            else:
+                seen.add((sig, "inflight", min(entered - left, 6)))
+    return seen
+
+
+def run(rep):
+    thorough = rep.tier == "thorough"
+    T = mh.Phases(rep)
+    rng = random.Random(rep.seed)
+    res, edges, inits = model_check(rep)
+    T("mc")
+    if edges:
+        replay_edges(rep, edges, inits, None if thorough else 30)
+    T("replay")
+    nshapes = 700 if thorough else 90
+    shapes = [gen_shape(rng) if i % 8 else gen_regenerate_shape(rng) for i in range(nshapes)]
+    traces, rejected = record(rep, shapes, 300 if thorough else 120, "wellformed")
+    broken = [break_shape(rng, gen_shape(rng)) for _ in range(nshapes // 3)]
+    traces2, rejected2 = record(rep, broken, 300 if thorough else 120, "edited")
+    T("record")
+    if rejected:
+        print(f"NOTE property=C28 {len(rejected)} generated well-formed shape(s) not accepted by the builder, "
+              f"e.g. {shape_sig(rejected[0][0])}: {rejected[0][1]}", flush=True)
+        rep.coverage["wellformed_not_accepted_samples"] = [{"shape": s, "error": e} for s, e in rejected[:5]]
+    rep.coverage["edited_not_accepted_reasons"] = sorted({e.split(":")[0] + ":" + e.split(":")[-1][:60] for _, e in rejected2})[:12]
+    alltr = traces + traces2
+    rej = judge(rep, alltr)
+    T("validate")
+    bad = {r["tid"] for r in rej}
+    corrupt_self_test(rep, [t for i, t in enumerate(alltr) if i + 1 not in bad], random.Random(rep.seed))
+    T("selftest")
+    sit = situations(alltr)
+    cyc = sum(len(t["cycles"]) for t in alltr)
+    rep.coverage["impl_cycles"] = cyc
+    rep.coverage["impl_node_firings"] = sum(sum(x["f"] + x["s"] for x in ln["n"]) for t in alltr for ln in t["cycles"])
+    rep.coverage["impl_clears"] = sum(ln["clear"] for t in alltr for ln in t["cycles"])
+    rep.coverage["distinct_shapes_validated"] = len({vcomp._key(t["cfg"]) for t in alltr})
+    rep.coverage["evaluations"] = cyc + rep.coverage.get("replay_cycles", 0)
+    rep.coverage["distinct_nontrivial"] = rep.coverage.get("edges_replayed_into_impl", 0) + len(sit)
+    rep.coverage["rule"] = (
+        "MC: PipelineMC.tla, 5 shapes (3-4 nodes; ext/call/fn; pipe, fifo 1-2; no_dependency ext and call), exact "
+        "bounded-buffer model, every offer set x outside arguments {1,2} x clear, at most 3 items entering; "
+        "invariants NoLoss/no duplication, EachStageOnceInOrder, ExitOrder, FieldsComputed, ClearDropsInflight, bounded "
+        "drain.  S->C: model edges (deduplicated modulo history variables) replayed with exactly the model's offer "
+        "sets; data mismatch = violation, firing-set mismatch = MODEL-DEVIATION diagnostic (timing is not part of the "
+        "property).  C->S: generated well-formed shapes (2-5 nodes over ext/call/fn x pipe/fifo 1-3 x no_dependency, "
+        "allow_unused, allow_empty regenerate family) plus randomly edited shapes that the builder still accepts, "
+        "seeded random offer/clear histories followed by a drain phase, judged by the timing-free PipelineTrace.tla; "
+        "distinct_nontrivial = replayed model edges + distinct (shape, situation): k nodes firing together, "
+        "k items in flight, clear with k items in flight")
+    if alltr:
+        t = alltr[0]
+        rep.sample({"kind": "impl-trace", "shape": shape_sig(t["cfg"]), "cfg": t["cfg"], "first_cycles": t["cycles"][:2]})
+    rep.assumptions += ["Amaranth Python simulator is faithful to the elaborated netlist",
+                        "stage functions / called methods are harness-owned (x+1, 2x, x+y, copy, const) and exist "
+                        "identically in the spec", "fields are 4 bit wide; items are distinguished by id (mod 16) and data"]
+
+
+def replay(rep, path):
+    d = json.load(open(path))
+    shape = d["cfg"]
+    steps = d["steps"]
+    for s in steps:
+        s["args"] = {int(k): v for k, v in s["args"].items()}
+    lines = run_schedule(shape, steps)
+    judge(rep, [{"cfg": shape, "seed": d.get("seed"), "cycles": lines, "steps": steps}])
